@@ -564,6 +564,10 @@ impl Mapper<Size2MiB> for RecursivePageTable<'_> {
         if p3_entry.is_unused() {
             return Err(FlagUpdateError::PageNotMapped);
         }
+        if p3_entry.flags().contains(PageTableFlags::HUGE_PAGE) {
+            // the page is part of a 1GiB mapping: there is no level 3 parent entry
+            return Err(FlagUpdateError::ParentEntryHugePage);
+        }
 
         p3_entry.set_flags(flags);
 
@@ -760,6 +764,10 @@ impl Mapper<Size4KiB> for RecursivePageTable<'_> {
         if p3_entry.is_unused() {
             return Err(FlagUpdateError::PageNotMapped);
         }
+        if p3_entry.flags().contains(PageTableFlags::HUGE_PAGE) {
+            // the page is part of a 1GiB mapping: there is no level 3 parent entry
+            return Err(FlagUpdateError::ParentEntryHugePage);
+        }
 
         p3_entry.set_flags(flags);
 
@@ -782,12 +790,23 @@ impl Mapper<Size4KiB> for RecursivePageTable<'_> {
         if p3[page.p3_index()].is_unused() {
             return Err(FlagUpdateError::PageNotMapped);
         }
+        if p3[page.p3_index()]
+            .flags()
+            .contains(PageTableFlags::HUGE_PAGE)
+        {
+            // the page is part of a 1GiB mapping; there is no level 2 table to look at
+            return Err(FlagUpdateError::ParentEntryHugePage);
+        }
 
         let p2 = unsafe { &mut *(p2_ptr(page, self.recursive_index)) };
         let p2_entry = &mut p2[page.p2_index()];
 
         if p2_entry.is_unused() {
             return Err(FlagUpdateError::PageNotMapped);
+        }
+        if p2_entry.flags().contains(PageTableFlags::HUGE_PAGE) {
+            // the page is part of a 2MiB mapping: there is no level 2 parent entry
+            return Err(FlagUpdateError::ParentEntryHugePage);
         }
 
         p2_entry.set_flags(flags);
